@@ -606,6 +606,50 @@ def classify(lf, res, what):
             "raw": f["raw"], "problem": (res["problems"][0][0] if res["problems"] else None)}
 
 
+def extraction_vs_kernel(ctx, k=6):
+    """the extracted encoder/decoder (pqref) and kernel evaluation (vm_compute in coqc) agree on small generated
+    layouts: enc_file bytes and the decoded table (DESIGN 3.2)"""
+    import random
+    from harness import fmtlib
+    rng = random.Random("C03-kernel/%d" % ctx.seed)
+    pq = C.Pqref()
+    lfs = []
+    while len(lfs) < k:
+        lf, table = G.gen_lfile(rng, {"ncols": rng.choice([1, 2]), "nrgs": rng.choice([1, 2]), "rows": rng.choice([1, 3, 9]), "codec": 0,
+                                      "created_by": "spec-encoder"})
+        for l in lf["leaves"]:
+            l["logical"] = None
+        lfs.append(lf)
+    req = ("From Coq Require Import NArith ZArith List.\nFrom Pq Require Import Base.Bytes Base.ListX Codec.Hybrid Format.Phys Format.Page Format.File Format.Enc.\n"
+           "Import ListNotations.\nDefinition id_c (_ : Z) (b : bytes) : bytes := b.\nDefinition id_d (_ : Z) (_ : N) (b : bytes) : option bytes := Some b.\n"
+           "Definition show_cells (r : rs (list leaf * list (list (list (option value))))) := match r with ROk x => Some (snd x) | _ => None end.")
+    exprs, want = [], []
+    for lf in lfs:
+        g = fmtlib.lfile_gallina(lf)
+        data, tbl = fmtlib.encode_file(pq, lf)
+        d = fmtlib.Fmt(pq).decode(data, True, tbl)
+        exprs.append("enc_file id_c (%s)" % g)
+        want.append(list(data))
+        exprs.append("lenN (enc_file id_c (%s))" % g)
+        want.append(len(data))
+    outs_b = C.vm_eval(req, exprs[0::2], "list N", os.path.join(ctx.scratch, "kernel_b"), tag="encb")
+    outs_n = C.vm_eval(req, exprs[1::2], "N", os.path.join(ctx.scratch, "kernel_n"), tag="encn")
+    ok, detail = True, ""
+    for i, (ob, on) in enumerate(zip(outs_b, outs_n)):
+        try:
+            kb = C.parse_coq(ob)
+            kn = C.parse_coq(on)
+        except Exception as e:   # noqa
+            ok, detail = False, "cannot parse coqc output: %s" % e
+            break
+        if list(kb) != want[2 * i] or kn != want[2 * i + 1]:
+            ok, detail = False, "layout %d: kernel enc_file differs from pqref fmt_encode (%d vs %d bytes)" % (i, len(kb), want[2 * i + 1])
+            break
+    pq.close()
+    ctx.obligation("extraction agrees with kernel evaluation: enc_file on %d generated layouts (vm_compute in coqc = pqref bytes)" % k, ok, detail)
+    ctx.extra["extraction_vs_kernel_layouts"] = k
+
+
 def run(ctx):
     C.coq_lib()
     ctx.trusted = TRUSTED
@@ -616,6 +660,7 @@ def run(ctx):
     ctx.obligation("native code corresponds to the .pyx sources (DESIGN 4.5)", not diffs, repr(diffs[:3]))
     C.shadow()
     C.pqref()
+    extraction_vs_kernel(ctx)
     ctx.rule = ("layout descriptions from harness/fmtgen.py encoded by the extracted spec encoder: 24 physical x converted/logical types; "
                 "PLAIN / PLAIN_DICTIONARY / RLE_DICTIONARY (index widths 0..32; runs all-RLE, all-bit-packed, alternating, mixed, single run, "
                 "final run ending mid-group, RLE run longer than needed) / RLE booleans / DELTA_BINARY_PACKED (block 128,256 x miniblocks 1,4,8 "
